@@ -302,11 +302,46 @@ func (c *child) do(srv, method, path, rawq string, headers map[string]string, bo
 
 var memLimitMB = 0
 
+// repoChain: the frames inside the repository of the handler goroutine, innermost first.
+func repoChain(blk string) (chain []string, top string) {
+	for _, f := range parseFrames(blk) {
+		if isRuntime(f) || strings.Contains(f.fn, "verifharness") {
+			continue
+		}
+		if top == "" {
+			top = fmtFrame(f)
+		}
+		if isRepo(f) {
+			chain = append(chain, fmtFrame(f))
+		}
+	}
+	return
+}
+
 func (c *child) timeout(why string) {
-	buf := make([]byte, 1<<20)
-	n := runtime.Stack(buf, true)
-	blk := goroutineBlock(string(buf[:n]), "c08.(*child).serve")
-	site, top := sites(parseFrames(blk), false)
+	// the call site of a handler that does not return: the innermost repository frame that is on the stack in
+	// three dumps taken 25 ms apart (a loop calling small helpers is identified by the looping function)
+	var common []string
+	top := ""
+	for i := 0; i < 3; i++ {
+		buf := make([]byte, 1<<20)
+		n := runtime.Stack(buf, true)
+		chain, t := repoChain(goroutineBlock(string(buf[:n]), "c08.(*child).serve"))
+		if i == 0 {
+			common, top = chain, t
+		} else {
+			k := 0
+			for k < len(common) && k < len(chain) && common[len(common)-1-k] == chain[len(chain)-1-k] {
+				k++
+			}
+			common = common[len(common)-k:]
+		}
+		time.Sleep(25 * time.Millisecond)
+	}
+	site := ""
+	if len(common) > 0 {
+		site = common[0]
+	}
 	o := c.cur
 	o.Kind, o.Site, o.Top, o.Msg = "timeout", site, top, why
 	o.MS = int(c.bound / time.Millisecond)
@@ -336,7 +371,7 @@ func (c *child) audioTime(asset string) string {
 		return v
 	}
 	v := "0"
-	res, err := c.do("plain", "GET", "/livesim2/segtimeline_1/"+asset+"/Manifest.mpd", "nowMS="+strconv.FormatInt(c.baseMS, 10), nil, nil, 0)
+	res, err := c.do("plain", "GET", "/livesim2/segtimeline_1/"+asset, "nowMS="+strconv.FormatInt(c.baseMS, 10), nil, nil, 0)
 	if err == nil && res.status == 200 && res.pv == nil {
 		if m, err := mpd.ReadFromString(string(res.body)); err == nil && len(m.Periods) > 0 {
 			for _, as := range m.Periods[0].AdaptationSets {
@@ -410,6 +445,9 @@ func (c *child) run(j job) {
 		o.Kind = "panic"
 		o.Msg = trunc(fmt.Sprint(res.pv), 160)
 		o.Site, o.Top = sites(parseFrames(string(res.stack)), true)
+		if os.Getenv("C08_DEBUG") != "" {
+			fmt.Fprintf(os.Stderr, "=== %s\npanic: %v\n%s\n", c.cur.URL, res.pv, res.stack)
+		}
 	} else {
 		o.Kind = "status"
 		if res.status >= 400 {
